@@ -16,6 +16,7 @@ type c18Feat struct {
 	cellRole   string // role attribute of one cell
 	datatable  string // datatable attribute ("" = absent)
 	nested     bool
+	nestedRole bool   // cellRole sits on the nested <table> element itself instead of on a cell
 	rows, cols int
 	header     int // 0 none, 1 caption(with text), 2 thead, 3 tfoot, 4 colgroup, 5 col, 6 th(with text), 7 empty caption + thead, 8 blank caption + th(with text), 9 empty caption + col
 	cellAttr   int // 0 none, 1 abbr, 2 headers, 3 scope, 4 lone <abbr> child
@@ -122,6 +123,8 @@ func c18Table(f c18Feat, cellsPerRow []int) string {
 				sb.WriteString(`<td scope="row">b</td>`)
 			case r == 1 && c == 0 && f.cellAttr == 4:
 				sb.WriteString("<td><abbr>b</abbr></td>")
+			case r == 1 && c == 1 && f.nested && f.nestedRole:
+				sb.WriteString(`<td><table role="N"><tr><td>n</td></tr></table></td>`)
 			case r == 1 && c == 1 && f.nested:
 				sb.WriteString("<td><table><tr><td>n</td></tr></table></td>")
 			case r == 1 && c == 1 && f.object == 1:
@@ -163,7 +166,16 @@ func c18Plant(t *html.Node, f c18Feat, rs, cs string) {
 	for _, td := range dom.GetElementsByTagName(t, "td") {
 		if dom.HasAttribute(td, "colspan") {
 			dom.SetAttribute(td, "colspan", cs)
-			dom.SetAttribute(td, "role", f.cellRole)
+			if f.nestedRole {
+				dom.RemoveAttribute(td, "role")
+			} else {
+				dom.SetAttribute(td, "role", f.cellRole)
+			}
+		}
+	}
+	for _, nt := range dom.GetElementsByTagName(t, "table") {
+		if dom.HasAttribute(nt, "role") {
+			dom.SetAttribute(nt, "role", f.cellRole)
 		}
 	}
 }
@@ -229,7 +241,7 @@ func HarnessC18Roles() {
 	f := c18Feat{}
 	maxRole := vx.Param("maxrole", 12)
 	f.editable = vx.Choose("editable", 2) == 1
-	which := vx.Choose("which", 3) // which attribute is symbolic on this path
+	which := vx.Choose("which", 4) // which attribute is symbolic on this path
 	switch which {
 	case 0:
 		f.role = vx.NondetStringIn("role", maxRole, c18RoleAlphabet)
@@ -240,6 +252,9 @@ func HarnessC18Roles() {
 		f.datatable = vx.NondetStringIn("datatable", 2, "01 ")
 		f.role = []string{"", "main"}[vx.Choose("trole2", 2)]
 		f.cellRole = []string{"", "row", "cell"}[vx.Choose("crole2", 3)]
+	case 3: // the role-bearing descendant is a nested table element
+		f.nested, f.nestedRole = true, true
+		f.cellRole = vx.NondetStringIn("cellrole", maxRole, c18RoleAlphabet)
 	}
 	var cellsPerRow []int
 	if vx.Choose("size", 2) == 0 {
